@@ -155,3 +155,7 @@ def oracle(case, impl):
 from harness import valuesnap as _vs               # noqa: E402
 from harness.mixins import add_family as _add_family   # noqa: E402
 _add_family(globals(), _vs, 'valuesnap', _vs.oracle, share=0.08)
+
+# one update naming its own updater among ordinary ones: afterwards the declared updater sums again
+from harness import onceset as _os                  # noqa: E402
+_add_family(globals(), _os, 'onceset', _os.oracle, share=0.05)
